@@ -2641,6 +2641,7 @@ func (c S3ApiController) PutActions(ctx *fiber.Ctx) error {
 					Action:      metrics.ActionCopyObject,
 					BucketOwner: parsedAcl.Owner,
 					ObjectETag:  res.CopyObjectResult.ETag,
+					ObjectSize:  c.eventObjectSize(ctx, bucket, keyStart, res.VersionId),
 					VersionId:   res.VersionId,
 					EventName:   s3event.EventObjectCreatedCopy,
 				})
@@ -3870,6 +3871,7 @@ func (c S3ApiController) CreateActions(ctx *fiber.Ctx) error {
 					Action:      metrics.ActionCompleteMultipartUpload,
 					BucketOwner: parsedAcl.Owner,
 					ObjectETag:  res.ETag,
+					ObjectSize:  c.eventObjectSize(ctx, bucket, key, res.VersionId),
 					EventName:   s3event.EventCompleteMultipartUpload,
 					VersionId:   res.VersionId,
 				})
@@ -3965,6 +3967,24 @@ func (c S3ApiController) CreateActions(ctx *fiber.Ctx) error {
 			Action:      metrics.ActionCreateMultipartUpload,
 			BucketOwner: parsedAcl.Owner,
 		})
+}
+
+// eventObjectSize returns the size of an object just created by a request
+// whose backend result does not carry it (copy, multipart completion), for
+// the event notification. It is only looked up when events are sent.
+func (c S3ApiController) eventObjectSize(ctx *fiber.Ctx, bucket, key string, versionId *string) int64 {
+	if c.evSender == nil {
+		return 0
+	}
+	input := &s3.HeadObjectInput{Bucket: &bucket, Key: &key}
+	if versionId != nil && *versionId != "" {
+		input.VersionId = versionId
+	}
+	res, err := c.be.HeadObject(ctx.Context(), input)
+	if err != nil || res.ContentLength == nil {
+		return 0
+	}
+	return *res.ContentLength
 }
 
 type MetaOpts struct {
